@@ -32,14 +32,17 @@ def reactionFlags : List Bool :=
 structure StepRel (R : W → W → Prop) (m : Msg) : Prop where
   pre : PreO R
   write : ∀ line, Rel R (transportWrite line)
-  setNode : ∀ id n, Rel R (AioMySensors.setNode id n)
+  /-- handlers only ever (re)write the node the message is from … -/
+  setNode : ∀ n, Rel R (AioMySensors.setNode m.node n)
+  /-- … or register a placeholder under the next free id (id request) -/
+  alloc : Rel R allocNode
   /-- the flush removes entries of the woken node only -/
   erase : ∀ k bm, bm.node = m.node → Rel R (eraseMod k bm)
   mark : Rel R (markMod (presentationRequest m.node))
   unmark : Rel R (prePresentation20 m)
   version : ∀ v, getProtocolE m.payload = .ok v → Rel R (versionMod m.payload v)
 
-variable {R : W → W → Prop} {m : Msg}
+variable {R : W → W → Prop} {m : Msg} {line : Str}
 
 theorem rel_gwSend (hR : StepRel R m) (sm : Msg) (b : Bool) (hpark : b = true → Rel R (parkMod sm)) :
     Rel R (gwSend sm b) := by
@@ -74,7 +77,7 @@ theorem rel_requireNode (hR : StepRel R m) (id : Int) : Rel R (requireNode id) :
 /-- Syntax-directed search for `Rel R`. -/
 macro "rel_auto" hR:ident hp:ident : tactic => `(tactic| repeat' (first
   | exact Rel.pure (StepRel.pre $hR) _ | exact Rel.raise (StepRel.pre $hR) _ | exact Rel.getSt (StepRel.pre $hR)
-  | exact StepRel.write $hR _ | exact StepRel.setNode $hR _ _ | exact rel_requireNode $hR _
+  | exact StepRel.write $hR _ | exact StepRel.setNode $hR _ | exact StepRel.alloc $hR | exact rel_requireNode $hR _
   | exact Rel.convertExn (StepRel.pre $hR) _ _ _
   | exact rel_gwSend_site $hR $hp _ _ (by simp [reactionFlags])
   | refine Rel.seq (StepRel.pre $hR) ?_ ?_ | refine Rel.bind (StepRel.pre $hR) ?_ (fun _ => ?_)
@@ -146,11 +149,11 @@ theorem rel_runLeaf (hR : StepRel R m) (hp : ParkOK R) (env : Env) (b : Body) (f
   · unfold hHeartbeat20 heartbeatValue
     refine Rel.bind hR.pre (rel_requireNode hR _) fun node => ?_
     refine Rel.bind hR.pre (Rel.convertExn hR.pre _ _ _) fun hb => ?_
-    exact Rel.seq hR.pre (hR.setNode _ _) (rel_flush hR hp)
+    exact Rel.seq hR.pre (hR.setNode _) (rel_flush hR hp)
   · unfold hHeartbeat22 heartbeatValue; rel_auto hR hp
   · unfold hPreSleep22
     refine Rel.bind hR.pre (rel_requireNode hR _) fun node => ?_
-    exact Rel.seq hR.pre (hR.setNode _ _) (rel_flush hR hp)
+    exact Rel.seq hR.pre (hR.setNode _) (rel_flush hR hp)
 
 theorem rel_runPre (hR : StepRel R m) (b : Body) : Rel R (runPre b m) := by
   cases b <;> first | exact hR.unmark | exact Rel.raise hR.pre _
@@ -185,7 +188,7 @@ theorem rel_runBase (hR : StepRel R m) (hp : ParkOK R) (env : Env) (v : Ver) (b 
   case presentation14 =>
     simp only [runBase, hPresentation]
     split
-    · refine Rel.seq hR.pre (hR.setNode _ _) ?_
+    · refine Rel.seq hR.pre (hR.setNode _) ?_
       split
       · exact rel_runTyped hR hp env _
       · exact Rel.pure hR.pre _
@@ -224,12 +227,13 @@ theorem rel_dispatch (hR : StepRel R m) (hp : ParkOK R) (env : Env) (v : Ver) : 
   · exact rel_applyLayers hR hp _ _ (rel_runBase hR hp env v _)
 
 /-- **Generic receive theorem.** One iteration of `listen` only makes `R`-steps. -/
-theorem rel_recv (hpre : PreO R) (hR : ∀ m, StepRel R m) (hp : ParkOK R) (env : Env) (line : Str) : Rel R (recv env line) := by
+theorem rel_recv (hpre : PreO R) (hR : ∀ v m, decode v line = some m → StepRel R m) (hp : ParkOK R) (env : Env) :
+    Rel R (recv env line) := by
   unfold recv
   refine Rel.bind hpre (Rel.getSt hpre) fun st => ?_
   split
   · exact Rel.raise hpre _
-  · exact rel_dispatch (hR _) hp env _
+  · next m hm => exact rel_dispatch (hR _ m hm) hp env _
 
 /-- **Generic send theorem.** -/
 theorem rel_apiSend (hR : StepRel R m) (hpark : ∀ sm, Rel R (parkMod sm)) (obj : Option Msg) (b : Bool) :
